@@ -180,10 +180,21 @@ class Caller(object):
                 for l in range(6):
                     if t.draw(15) == 0:
                         dead_links.add((x, y, self.Links(l)))
+        ncores = [3, 5, 18][t.draw(3)]
+        # chips that differ from the rest (their own resource dictionaries
+        # are objects of the caller's too)
+        exc = {}
+        if t.draw(3) == 0:
+            for _ in range(1 + t.draw(3)):
+                xy = (t.draw(W), t.draw(H))
+                if xy not in dead:
+                    exc[xy] = {par.Cores: 1 + t.draw(ncores),
+                               par.SDRAM: [100000, 5000][t.draw(2)],
+                               par.SRAM: 1024}
         machine = par.Machine(W, H, collections.OrderedDict(
-            [(par.Cores, [3, 5, 18][t.draw(3)]), (par.SDRAM, 100000),
+            [(par.Cores, ncores), (par.SDRAM, 100000),
              (par.SRAM, 1024)]),
-            {}, dead, dead_links)
+            exc, dead, dead_links)
         g = prgen.Graph(t)
         for _ in range(t.draw(8)):
             prgen.add_net(t, g, par, max_fanout=4)
@@ -191,12 +202,30 @@ class Caller(object):
             prgen.new_vertex(t, g, par)
         constraints = [cons.ReserveResourceConstraint(par.Cores,
                                                       slice(0, 1))]
-        vs = list(g.vertices_resources)
         chips = [c for c in ((x, y) for x in range(W) for y in range(H))
                  if c not in dead]
+        k = t.draw(4)
+        if k == 0:
+            # nothing reserved anywhere
+            constraints = []
+        elif k == 1:
+            # reserved on one chip only
+            constraints = [cons.ReserveResourceConstraint(
+                par.Cores, slice(0, 1), chips[t.draw(len(chips))])]
+        vs = list(g.vertices_resources)
         if vs and t.draw(2):
             constraints.append(cons.LocationConstraint(
                 vs[t.draw(len(vs))], chips[t.draw(len(chips))]))
+        if vs and exc and t.draw(2):
+            # vertices pinned to a chip that has its own resources - those
+            # that need nothing (devices) first
+            xy = sorted(exc)[t.draw(len(exc))]
+            pinned = {c.vertex for c in constraints
+                      if isinstance(c, cons.LocationConstraint)}
+            free = [v for v in vs if v not in pinned]
+            free.sort(key=lambda v: sum(g.vertices_resources[v].values()))
+            for v in free[:1 + t.draw(2)]:
+                constraints.append(cons.LocationConstraint(v, xy))
         if t.draw(6) == 0 and len(constraints) > 1:
             # the very same constraint object listed twice
             constraints.append(constraints[-1])
